@@ -11,6 +11,7 @@
 package c02
 
 import (
+	"sync/atomic"
 	"fmt"
 	"reflect"
 	"strings"
@@ -55,6 +56,12 @@ var cores = []core{
 	// range loop believes about the buffer when it starts is out of date when its
 	// body (or another goroutine) has taken a value; the loop ends up waiting on the
 	// empty channel and that wait must see the cancellation
+	// a backlog of 60 values: a loop that takes a waiting value must still look at
+	// the context every time round (with or without a body), so that the number of
+	// steps after the cancellation stays small whatever the backlog
+	{"range-backlog-empty-body", "for x in feed { }", true, 0, false},
+	{"range-backlog-body", "for x in feed { s(1) }", true, 0, false},
+	{"recv-backlog-loop", "for { x = <-feed }", true, 0, false},
 	{"range-body-takes", "sh = make(chan int64, 2)\nsh <- 1\nsh <- 2\nfor x in sh { y = <-sh; s(1) }", true, 0, false},
 	{"range-two-takers", "sh = make(chan int64, 2)\nsh <- 1\nsh <- 2\ngo func() { for y in sh { s(2) } }()\nfor x in sh { s(1) }", true, 2, true},
 	{"recv-two-takers", "sh = make(chan int64, 2)\nsh <- 1\nsh <- 2\ngo func() { <-sh; s(2); <-sh }()\n<-sh\ns(1)\n<-sh\n<-sh", true, 2, true},
@@ -274,6 +281,7 @@ type result struct {
 	cancelled        bool
 	mainDoneAtCancel bool
 	pollsAtCancel    int64
+	stepsAtCancel    int
 	observed         int // polls that returned a cancelled context to the interpreter
 	afterPolls       map[int]int
 	probes           []probe
@@ -298,6 +306,12 @@ func newEnv(logf func(i int64)) *env.Env {
 	e.Define("long", long)
 	e.Define("longmap", lm)
 	e.Define("never", make(chan int64))
+	// a channel with a long backlog: 60 values are waiting, nobody sends more
+	feed := make(chan int64, 64)
+	for i := int64(0); i < 60; i++ {
+		feed <- i
+	}
+	e.Define("feed", feed)
 	e.Define("hostcall", func(cb func() interface{}) interface{} { return cb() })
 	e.Define("h2", func(a, b interface{}) interface{} { return a })
 	e.Define("hv", func(a ...interface{}) interface{} { return int64(len(a)) })
@@ -339,6 +353,7 @@ func runOnce(p program, ch sched.Chooser, record bool, pollCap int64) (r result,
 				Enabled: func() bool { return true },
 				Fire: func() {
 					r.cancelled = true
+					r.stepsAtCancel = s.Steps
 					r.pollsAtCancel = c.Polls()
 					c.Cancel()
 				}})
@@ -388,12 +403,34 @@ func judge(p program, r result) (class, detail string) {
 	if o.Err.Error() != "execution interrupted" {
 		return "wrong-error", "error after the cancellation is " + o.Err.Error()
 	}
+	// steps of every kind (polls, channel operations, lock-free receives) after the
+	// cancellation: bounded by the nesting depth, never by how much data is waiting
+	after := o.Steps - r.stepsAtCancel
+	for {
+		old := atomic.LoadInt64(&maxStepsAfterCancel)
+		if int64(after) <= old || atomic.CompareAndSwapInt64(&maxStepsAfterCancel, old, int64(after)) {
+			break
+		}
+	}
+	if after > stepsAfterCancelBound(p) {
+		return "late-steps", fmt.Sprintf("%d scheduler steps (polls and channel operations) were made after the cancellation (allowed %d): the wait for the cancellation grows with the data that is waiting", after, stepsAfterCancelBound(p))
+	}
 	for tid, n := range r.afterPolls {
 		if n > p.Depth+2 {
 			return "late", fmt.Sprintf("T%d made %d further polls after the cancellation (allowed %d)", tid, n, p.Depth+2)
 		}
 	}
 	return "", ""
+}
+
+var maxStepsAfterCancel int64
+
+// stepsAfterCancelBound: every thread may make depth+2 polls and a handful of
+// channel steps while it unwinds (measured maximum on the unchanged tree: see the
+// evidence counter max_steps_after_cancel); 60 waiting values are far beyond it.
+func stepsAfterCancelBound(p program) int {
+	threads := 1 + strings.Count(p.Src, "go func")
+	return threads*(p.Depth+2+6) + 8
 }
 
 type replayData struct {
@@ -499,6 +536,7 @@ func run(c *common.Ctx) *common.Result {
 			res.Sample(map[string]interface{}{"program": p.Name, "source": p.Src, "cancellation_instants_and_schedules": st.Execs})
 		}
 	}
+	res.Max("max_steps_after_cancel", atomic.LoadInt64(&maxStepsAfterCancel))
 	return res
 }
 
@@ -511,6 +549,7 @@ func coverage(c *common.Ctx, r *common.Result) map[string]interface{} {
 		"programs":                      r.Counts["programs"],
 		"cancellation_instants":         r.Counts["cancellations"],
 		"max_schedule_points":           r.GetMax("points"),
+		"max_steps_after_cancel":        r.GetMax("max_steps_after_cancel"),
 		"rule": "programs = every nesting (depth <=2 quick, <=3 thorough with family representatives innermost) of 23 wrapping constructs (if/else/else-if, switch case/default, three loop forms, try body / catch / finally, ?? left and right, script functions of arity 0,1,4,5 and variadic, anonymous call, deferred call, go call, callback handed to a Go function) around 13 cores (spinning: four loop forms, map loop, recursion, looping callee - bounded at 22 iterations, far beyond the cancellation window; blocked: receive, send, range, two-value receive and the forwarding form dst <- src on a channel nobody serves); " +
 			"every context poll and channel operation is a schedule point and 'cancel now' competes at each of them (deviation bound 1; programs with goroutines: all interleavings with preemption+cancel bound 2 (thorough: bound 3 at depth <= 2, bound 1 at depth 3)); after the cancellation the call must return 'execution interrupted', no statement probe may run, no thread may poll more than depth+2 times, no thread may stay blocked; states = distinct (program, oracle outcome) pairs, transitions = scheduler steps, traces_validated = runs in which a cancellation was delivered and judged",
 	}
